@@ -359,6 +359,19 @@ var nilHosts = []nilHost{
 		}
 		return &vocab.Object{ID: "https://example.com/h", Type: vocab.NoteType, Tag: l, To: append(vocab.ItemCollection{}, l...)}
 	}},
+	{"Object.tag[nil-like first, then members without an id]", func(it vocab.Item) vocab.Item {
+		noid := func(n string) vocab.Item {
+			return &vocab.Object{Type: vocab.NoteType, Name: vocab.NaturalLanguageValues{{Ref: vocab.NilLangRef, Value: vocab.Content(n)}}}
+		}
+		return &vocab.Object{ID: "https://example.com/h", Type: vocab.NoteType, Tag: vocab.ItemCollection{it, noid("one"), &vocab.Link{Type: vocab.MentionType, Name: vocab.NaturalLanguageValues{{Ref: vocab.NilLangRef, Value: vocab.Content("@x")}}}, noid("two"), it},
+			Attachment: vocab.ItemCollection{noid("three"), it, vocab.IRI("https://example.com/a")}}
+	}},
+	{"Actor.streams[only nil-likes]", func(it vocab.Item) vocab.Item {
+		return &vocab.Actor{ID: "https://example.com/h", Type: vocab.PersonType, Inbox: vocab.IRI("https://example.com/h/inbox"), Streams: vocab.ItemCollection{it, it}, Tag: vocab.ItemCollection{it}}
+	}},
+	{"Collection.items[only nil-likes]", func(it vocab.Item) vocab.Item {
+		return &vocab.OrderedCollection{ID: "https://example.com/h", Type: vocab.OrderedCollectionType, OrderedItems: vocab.ItemCollection{it}, To: vocab.ItemCollection{it, it}, Name: vocab.NaturalLanguageValues{{Ref: vocab.NilLangRef, Value: vocab.Content("kept")}}}
+	}},
 	{"Object.attachment", func(it vocab.Item) vocab.Item {
 		return &vocab.Object{ID: "https://example.com/h", Type: vocab.NoteType, Attachment: it, AttributedTo: it, Replies: it, URL: it}
 	}},
@@ -415,6 +428,117 @@ func init() {
 				nilHost{fmt.Sprintf("top-level list[%s of %d]", pos, n), func(it vocab.Item) vocab.Item { return mk(it) }})
 		}
 	}
+}
+
+func pruneEmptyLists(n *vmodel.Node) *vmodel.Node {
+	if n == nil {
+		return nil
+	}
+	if n.Kind == "list" {
+		var kept []*vmodel.Node
+		for _, e := range n.List {
+			e = pruneEmptyLists(e)
+			if e == nil || (e.Kind == "list" && len(e.List) == 0) {
+				continue
+			}
+			kept = append(kept, e)
+		}
+		if len(kept) == 0 {
+			return nil
+		}
+		return &vmodel.Node{Kind: "list", List: kept}
+	}
+	if n.Props != nil {
+		out := &vmodel.Node{Kind: n.Kind, GoT: n.GoT, S: n.S, Props: map[string]*vmodel.Node{}}
+		for k, v := range n.Props {
+			if p := pruneEmptyLists(v); p != nil {
+				if p.Kind == "list" && len(p.List) == 1 {
+					p = p.List[0] // one survivor in a single-item position
+				}
+				out.Props[k] = p
+			}
+		}
+		return out
+	}
+	return n
+}
+
+// withoutNilLikes returns x with every nil-like member removed: interface-typed properties holding one are unset, lists lose
+// those members (an emptied list becomes unset), recursively through embedded values.
+func withoutNilLikes(x vocab.Item) vocab.Item {
+	isNilLike := func(v reflect.Value) bool {
+		if !v.IsValid() {
+			return true
+		}
+		if v.Kind() == reflect.Interface {
+			if v.IsNil() {
+				return true
+			}
+			v = v.Elem()
+		}
+		return v.Kind() == reflect.Pointer && v.IsNil()
+	}
+	var walk func(v reflect.Value)
+	cleanList := func(l vocab.ItemCollection) vocab.ItemCollection {
+		var out vocab.ItemCollection
+		for i := range l {
+			ev := reflect.ValueOf(&l).Elem().Index(i)
+			if isNilLike(ev) {
+				continue
+			}
+			walk(ev)
+			out = append(out, l[i])
+		}
+		return out
+	}
+	walk = func(v reflect.Value) {
+		switch v.Kind() {
+		case reflect.Interface:
+			if v.IsNil() {
+				return
+			}
+			if l, ok := v.Interface().(vocab.ItemCollection); ok {
+				if c := cleanList(l); len(c) > 0 {
+					v.Set(reflect.ValueOf(c))
+				} else {
+					v.Set(reflect.Zero(v.Type()))
+				}
+				return
+			}
+			walk(v.Elem())
+		case reflect.Pointer:
+			if !v.IsNil() {
+				walk(v.Elem())
+			}
+		case reflect.Struct:
+			if v.Type() == vmodel.TimeT {
+				return
+			}
+			for i := 0; i < v.NumField(); i++ {
+				f := v.Field(i)
+				if !v.Type().Field(i).IsExported() || !f.CanSet() {
+					continue
+				}
+				switch {
+				case f.Type() == vmodel.IcT:
+					f.Set(reflect.ValueOf(cleanList(f.Interface().(vocab.ItemCollection))))
+				case f.Kind() == reflect.Interface && isNilLike(f):
+					f.Set(reflect.Zero(f.Type()))
+				case f.Kind() == reflect.Pointer && f.IsNil():
+				default:
+					walk(f)
+				}
+			}
+		}
+	}
+	if l, ok := x.(vocab.ItemCollection); ok {
+		return cleanList(l)
+	}
+	if x == nil || isNilLike(reflect.ValueOf(x)) {
+		return nil
+	}
+	walk(reflect.ValueOf(x))
+	return x
 }
 
 type hostOp struct {
@@ -561,6 +685,46 @@ func init() {
 					// signature: entry = operation on host position (the Guard names it)
 					c.Guard(op.Name+" on "+host.Name, func() { op.Run(hv) })
 					c.Eval(1)
+					// "nothing" means nothing: both encoders write the host exactly as they write it with the nil-like members taken
+					// out (a nil-like in a property = the property unset, in a list = one member fewer)
+					if op.Name == "MarshalJSON" || op.Name == "GobEncode" {
+						var fresh, cleaned vocab.Item
+						if c.Guard("build "+host.Name, func() { fresh = host.Build(n.It); cleaned = withoutNilLikes(host.Build(n.It)) }) {
+							return
+						}
+						var b1, b2 []byte
+						var e1, e2 error
+						if c.Guard(op.Name+" on "+host.Name, func() {
+							if op.Name == "MarshalJSON" {
+								b1, e1 = vocab.MarshalJSON(fresh)
+								b2, e2 = vocab.MarshalJSON(cleaned)
+							} else {
+								b1, e1 = vocab.GobEncode(fresh)
+								b2, e2 = vocab.GobEncode(cleaned)
+							}
+						}) {
+							return
+						}
+						c.Count("nothing-comparisons", 1)
+						same := (e1 == nil) == (e2 == nil)
+						if same && e1 == nil {
+							// what was written is compared as what it says: decoded, with empty lists pruned on both sides (a list that held
+							// only nil-likes may be written as an empty array, and a nil member is stored by gob as an empty entry that reads
+							// back as an empty list - the library itself counts those as nil)
+							dec := vocab.GobDecode
+							if op.Name == "MarshalJSON" {
+								dec = func(b []byte) (vocab.Item, error) { return vocab.UnmarshalJSON(b) }
+							}
+							d1, err1 := dec(b1)
+							d2, err2 := dec(b2)
+							same = (err1 == nil) == (err2 == nil) && (len(b1) == 0) == (len(b2) == 0) &&
+								len(vmodel.Diff(pruneEmptyLists(vmodel.Canon(d1, vmodel.Exact)), pruneEmptyLists(vmodel.Canon(d2, vmodel.Exact)))) == 0
+						}
+						if !same {
+							c.Fail(fmt.Sprintf("nil|%s|%s|not-nothing", op.Name, strings.SplitN(host.Name, "[", 2)[0]), fmt.Sprintf("%s of %s with %s differs from the same value without the nil-like members", op.Name, host.Name, n.Name),
+								map[string]any{"host": host.Name, "nil": n.Name, "with": clipB(b1), "without": clipB(b2), "err_with": fmt.Sprint(e1), "err_without": fmt.Sprint(e2)})
+						}
+					}
 				}},
 				{Name: "reported-only", N: len(helpers) * len(extra), Exhaustive: true, Run: func(c *Ctx, idx int) {
 					h := helpers[idx/len(extra)]
